@@ -138,6 +138,8 @@ impl<SystemType : System> SysCache<SystemType> {
         ensures *final(w) == *old(w),       // looking into the cache changes nothing
             res is Ok ==> old(w).files.contains_key(cpath(old(w).cache_dir, ticket.bytes())),
             res matches Err(OpenError::NotThere) ==> !old(w).files.contains_key(cpath(old(w).cache_dir, ticket.bytes())),
+            // a name that is not a FILE of the cache gets the clean NotThere -- also when a directory of that name sits there     //# O-V-open-clean-miss [C19]
+            (old(w).dirs.contains(old(w).cache_dir) && !old(w).files.contains_key(cpath(old(w).cache_dir, ticket.bytes()))) ==> res matches Err(OpenError::NotThere),
 //@ end
 
 //@ extract cache.rs impl /SysCache<SystemType>$/ fn restore_file
